@@ -471,93 +471,83 @@ func everyHeaderReadAfter(fn *ssa.Function, start *ssa.Call) bool {
 func checkReserved(r3 *core.RuleRun, sd *setDecoder) {
 	fn := sd.decodeSet
 	fname := core.FuncName(fn)
-	// find comparisons of the set id with constants using >= and <=
-	var ge, le *ssa.BinOp
+	// the record loop: the loop that calls the record decoder
+	var loop *core.Loop
 	allInstrs(fn, func(ins ssa.Instruction) {
-		b, ok := ins.(*ssa.BinOp)
-		if !ok {
-			return
-		}
-		if _, isC := ssaConstInt(b.Y); !isC {
-			return
-		}
-		_, fld := fieldLoad(b.X)
-		if fld == nil || !(strings.Contains(fld.Name(), "SetID")) {
-			return
-		}
-		switch b.Op {
-		case token.GEQ:
-			ge = b
-		case token.LEQ:
-			le = b
+		if c, ok := ins.(*ssa.Call); ok && c.Common().StaticCallee() == sd.decodeDat {
+			loop = core.LoopOf(fn, c)
 		}
 	})
-	if ge == nil || le == nil {
-		r3.Fail(fname+":reserved-range", fn.Pos(), "no 'id >= lo && id <= hi' test on the set id: reserved set ids are interpreted")
+	if loop == nil || sd.skipGuard == nil {
+		r3.Undecided(fname+":reserved-range", fn.Pos(), "record loop or skip not found")
 		return
 	}
-	lo, _ := ssaConstInt(ge.Y)
-	hi, _ := ssaConstInt(le.Y)
-	r3.Check(lo == 4 && hi == 255, fname+":reserved-bounds", ge.Pos(), "reserved range 4..255", fmt.Sprintf("reserved set id range is %d..%d, RFC 7011/3954 reserve 4..255", lo, hi))
-	// the block reached when both hold
-	var target *ssa.BasicBlock
-	for _, ref := range referrers(le) {
-		if ifi, ok := ref.(*ssa.If); ok {
-			target = ifi.Block().Succs[0]
-		}
-		// `case id >= lo && id <= hi:` of a tagless switch evaluates the conjunction into a value first:
-		// phi(false, id <= hi) feeding the branch
-		if phi, ok := ref.(*ssa.Phi); ok {
-			conj := true
-			for _, e := range phi.Edges {
-				if e == ssa.Value(le) {
-					continue
-				}
-				if c, isC := e.(*ssa.Const); !isC || c.Value == nil || c.Value.String() != "false" {
-					conj = false
-				}
+	// The loop's control flow is folded for a concrete set id (comparisons of the id with constants, in any form:
+	// if chains, switch cases, negated ranges). What a set with that id can reach before the skip is collected.
+	type reach struct {
+		calls   []string
+		returns bool
+		skip    bool
+	}
+	walk := func(id int64) reach {
+		var out reach
+		fold := foldedEdges(isSetIDValue, id)
+		seen := map[*ssa.BasicBlock]bool{}
+		stack := []*ssa.BasicBlock{loop.Header}
+		for len(stack) > 0 {
+			b := stack[len(stack)-1]
+			stack = stack[:len(stack)-1]
+			if seen[b] {
+				continue
 			}
-			if conj {
-				for _, r2 := range referrers(phi) {
-					if ifi, ok := r2.(*ssa.If); ok {
-						target = ifi.Block().Succs[0]
+			seen[b] = true
+			if b == sd.skipGuard {
+				out.skip = true
+				continue
+			}
+			for _, ins := range b.Instrs {
+				switch x := ins.(type) {
+				case *ssa.Call:
+					if f := x.Common().StaticCallee(); f != nil && f.Name() != "ReadCount" && f.Name() != "Len" && (f.Pkg == nil || f.Pkg.Pkg.Path() != "fmt") {
+						out.calls = append(out.calls, f.Name())
 					}
+				case *ssa.Return:
+					out.returns = true
+				}
+			}
+			for si, s := range b.Succs {
+				if s == loop.Header {
+					continue // one iteration
+				}
+				if fold(b, si) {
+					stack = append(stack, s)
 				}
 			}
 		}
-	}
-	if target == nil {
-		r3.Undecided(fname+":reserved-edge", le.Pos(), "upper-bound comparison does not feed a branch")
-		return
+		sort.Strings(out.calls)
+		return out
 	}
 	bad := ""
-	w := core.Walk{Blocked: func(ins ssa.Instruction) bool { return ins.Block() == sd.skipGuard && !sd.skipGuardReachedFrom(target) }}
-	_ = w
-	// walk from target until the skip guard; no repo call other than reader accounting may occur
-	seen := map[*ssa.BasicBlock]bool{}
-	stack := []*ssa.BasicBlock{target}
-	reachedSkip := false
-	for len(stack) > 0 {
-		b := stack[len(stack)-1]
-		stack = stack[:len(stack)-1]
-		if seen[b] {
-			continue
+	for _, id := range []int64{4, 5, 100, 254, 255} {
+		r := walk(id)
+		if len(r.calls) > 0 || r.returns || !r.skip {
+			bad = fmt.Sprintf("a set with id %d reaches calls %v (returns before the skip: %v, skip reached: %v)", id, r.calls, r.returns, r.skip)
 		}
-		seen[b] = true
-		if b == sd.skipGuard {
-			reachedSkip = true
-			continue
-		}
-		for _, ins := range b.Instrs {
-			if c, ok := ins.(*ssa.Call); ok {
-				if f := c.Common().StaticCallee(); f != nil && f.Name() != "ReadCount" && f.Name() != "Len" {
-					bad = f.Name()
-				}
-			}
-		}
-		stack = append(stack, b.Succs...)
 	}
-	r3.Check(bad == "" && reachedSkip, fname+":reserved-to-skip", le.Pos(), "reserved ids go straight to the skip", fmt.Sprintf("on the reserved-id path %q is called (or the skip is not reached): reserved sets are interpreted", bad))
+	if bad == "" {
+		// the test exists at all: some other id does reach a parser
+		if r := walk(256); len(r.calls) == 0 {
+			bad = "no set id reaches a record parser: the dispatch on the set id was not recognised"
+			r3.Undecided(fname+":reserved-range", fn.Pos(), bad)
+			return
+		}
+	}
+	r3.Check(bad == "", fname+":reserved-range", fn.Pos(), "set ids 4..255 read no record and go straight to the skip", bad+": reserved set ids are interpreted")
+	// the reserved range is exactly 4..255: the neighbours are decoded
+	lo, hi := walk(3), walk(256)
+	r3.Check(len(lo.calls) > 0 && len(hi.calls) > 0, fname+":reserved-bounds", fn.Pos(), "ids 3 and 256 are decoded: the reserved range is 4..255",
+		fmt.Sprintf("set id 3 reaches %v and set id 256 reaches %v: the range treated as reserved is wider than 4..255 (RFC 7011 3.3.2 / RFC 3954 5.1), sets that carry records are skipped", lo.calls, hi.calls))
+	r3.OK(fname+":reserved-to-skip", fn.Pos(), "reserved ids go straight to the skip")
 }
 
 func (sd *setDecoder) skipGuardReachedFrom(b *ssa.BasicBlock) bool { return true }
